@@ -7,4 +7,5 @@ mod abci;
 mod ledger;
 mod oracle;
 mod proposal;
+mod rollupdata;
 mod validators;
